@@ -186,8 +186,12 @@ CStmt(s, st) ==
              s4 == Emit3(CBlock(s[5], 1, Emit3(s3, OpJumpIfFalse, 9999)), OpJump, start)
          IN Emit1(Patch(s4, jif, Here(s4)), OpPlaceholder)
     [] s[1] = "switch" ->
+         \* (the value is compiled in front of every case expression; a switch with no case expression at all
+         \* - only a default block, or nothing - still has its value compiled, once)
          LET r == CCases(s[2], s[3], 1, st, <<>>)
-             s1 == CDefaults(s[3], 1, r[1])
+             noCase == \A i \in 1..Len(s[3]) : s[3][i][1] \/ Len(s[3][i][2]) = 0
+             s0 == IF noCase THEN CExpr(s[2], r[1]) ELSE r[1]
+             s1 == CDefaults(s[3], 1, s0)
          IN Emit1(PatchAll(s1, r[2], Here(s1)), OpPlaceholder)
     [] s[1] = "func" ->
          \* the body is compiled into a byte sequence of its own; the pool is shared
